@@ -178,6 +178,11 @@ impl FixtureDatabase {
             debug!("Skipped {} entries in filtered directories", skipped_dirs);
         }
 
+        // A file that is reachable under several names (symlinks) is one file: analyze it once.
+        // Two workers analyzing the same real file at the same time both register its entries.
+        let mut seen_files = std::collections::HashSet::new();
+        files_to_process.retain(|path| seen_files.insert(self.get_canonical_path(path.clone())));
+
         let total_files = files_to_process.len();
         info!("Found {} test/conftest files to process", total_files);
 
